@@ -90,9 +90,228 @@ def _factory_probe(a):
         c11.op_factory({"factory": fac["name"], "p": fac["p"]})
 
 
+# ---- derived values a packet ID / a sequence control / a header remembers (case key "hist" of pid_raw / psc_raw / sph_pack /
+#      sph_new; not read by the model ops): the object is obtained with OTHER values (constructor, from_raw, decoded, composite
+#      fields, taken out of a header, copied), some or all of its derived views are read (raw(), pack(), ==, hash where defined,
+#      packet_len, the header's flat views, the generic packet made of it), then it is given the case's values through its public
+#      attributes / the header's setters / by replacing the part (where the implementation takes that), and every view is read again
+#      in the order of the case: it shows what an object built directly with the case's values shows, and the op goes on with it
+#      (its result is compared with the model's answer for the case's values) ----
+HDR_KEYS = ["version", "ptype", "shf", "apid", "flags", "count", "dlen"]
+HDR_VIEW_NAMES = ["pack", "fields", "pid_raw", "psc_raw", "eq", "hash", "len", "generic", "composite"]
+PID_VIEW_NAMES = ["raw", "fields", "eq", "hash", "in_header"]
+PSC_VIEW_NAMES = ["raw", "fields", "eq", "hash", "in_header"]
+# what a step of a header history assigns (header attribute, or attribute of the part the header hands out, or the part itself)
+HDR_STEPS = {"apid": ["apid"], "packet_type": ["ptype"], "sec_header_flag": ["shf"], "seq_flags": ["flags"], "seq_count": ["count"],
+             "data_len": ["dlen"], "ccsds_version": ["version"], "pid.apid": ["apid"], "pid.ptype": ["ptype"],
+             "pid.sec_header_flag": ["shf"], "psc.seq_flags": ["flags"], "psc.seq_count": ["count"],
+             "packet_id": ["ptype", "shf", "apid"], "packet_seq_control": ["flags", "count"]}
+_HDR_ATTR = {"version": "ccsds_version", "ptype": "packet_type", "shf": "sec_header_flag", "apid": "apid", "flags": "seq_flags",
+             "count": "seq_count", "dlen": "data_len"}
+_PART_ATTR = {"ptype": "ptype", "shf": "sec_header_flag", "apid": "apid", "flags": "seq_flags", "count": "seq_count"}
+_CONV = {"version": int, "ptype": PacketType, "shf": bool, "apid": int, "flags": SequenceFlags, "count": int, "dlen": int}
+
+
+class _Immutable(Exception):
+    """the implementation does not take the assignment (a value object): there is no history to tell"""
+
+
+def _assign(obj, name: str, value) -> None:
+    """public attribute assignment; a class that refuses assignments as such (frozen / read-only) has no such history -
+    any other exception (a setter that refuses a value of the field's range) propagates"""
+    try:
+        setattr(obj, name, value)
+    except (AttributeError, TypeError) as e:
+        raise _Immutable(str(e))
+
+
+def _hash_view(x, equal_twin):
+    """'unhashable', or whether the object hashes like an object that holds the same values and compares equal"""
+    try:
+        h = hash(x)
+    except TypeError:
+        return "unhashable"
+    t = equal_twin()
+    return {"equal_objects_hash_equal": (h == hash(t)) or not (x == t)}
+
+
+def _spec_words(v) -> bytes:
+    """the six octets of CCSDS 133.0-B-2 4.1.3 for the field values, by the harness"""
+    w0 = (v["version"] << 13) | (v["ptype"] << 12) | (v["shf"] << 11) | v["apid"]
+    w1 = (v["flags"] << 14) | v["count"]
+    return w0.to_bytes(2, "big") + w1.to_bytes(2, "big") + v["dlen"].to_bytes(2, "big")
+
+
+def _pid_of(v) -> PacketId:
+    return PacketId(PacketType(v["ptype"]), bool(v["shf"]), v["apid"])
+
+
+def _psc_of(v) -> PacketSeqCtrl:
+    return PacketSeqCtrl(SequenceFlags(v["flags"]), v["count"])
+
+
+def _pid_fields(p):
+    return {"ptype": int(p.ptype), "shf": int(bool(p.sec_header_flag)), "apid": int(p.apid)}
+
+
+def _psc_fields(p):
+    return {"flags": int(p.seq_flags), "count": int(p.seq_count)}
+
+
+def _hdr_views(final):
+    def v_eq(h):
+        back, ref = SpacePacketHeader.unpack(bytes(h.pack()) + b"\x55"), _hdr(final)
+        return {"decoded": [bool(h == back), bool(back == h), bool(h != back)], "final": [bool(h == ref), bool(ref == h), bool(h != ref)],
+                "pid": [bool(h.packet_id == ref.packet_id), bool(ref.packet_id == h.packet_id)],
+                "psc": [bool(h.packet_seq_control == ref.packet_seq_control), bool(ref.packet_seq_control == h.packet_seq_control)]}
+    return [("pack", lambda h: hx(core.pack_stable(h, "SpacePacketHeader.pack()"))), ("fields", _fields),
+            ("pid_raw", lambda h: int(h.packet_id.raw())), ("psc_raw", lambda h: int(h.packet_seq_control.raw())), ("eq", v_eq),
+            ("hash", lambda h: _hash_view(h, lambda: SpacePacketHeader.unpack(bytes(h.pack())))),
+            ("len", lambda h: [int(h.packet_len), int(h.header_len)]),
+            ("generic", lambda h: hx(SpacePacket(h, b"\x01\x02", b"\x03").pack())),
+            ("composite", lambda h: _fields(SpacePacketHeader.from_composite_fields(h.packet_id, h.packet_seq_control, h.data_len,
+                                                                                    h.ccsds_version)))]
+
+
+def _pid_views(final):
+    def v_eq(p):
+        back, ref = PacketId.from_raw(int(p.raw())), _pid_of(final)
+        return {"decoded": [bool(p == back), bool(back == p), bool(p != back)], "final": [bool(p == ref), bool(ref == p), bool(p != ref)]}
+    return [("raw", lambda p: int(p.raw())), ("fields", _pid_fields), ("eq", v_eq),
+            ("hash", lambda p: _hash_view(p, lambda: PacketId(p.ptype, p.sec_header_flag, p.apid))),
+            ("in_header", lambda p: hx(SpacePacketHeader.from_composite_fields(p, PacketSeqCtrl(SequenceFlags(2), 0x1234), 7, 5).pack()))]
+
+
+def _psc_views(final):
+    def v_eq(p):
+        back, ref = PacketSeqCtrl.from_raw(int(p.raw())), _psc_of(final)
+        return {"decoded": [bool(p == back), bool(back == p), bool(p != back)], "final": [bool(p == ref), bool(ref == p), bool(p != ref)]}
+    return [("raw", lambda p: int(p.raw())), ("fields", _psc_fields), ("eq", v_eq),
+            ("hash", lambda p: _hash_view(p, lambda: PacketSeqCtrl(p.seq_flags, p.seq_count))),
+            ("in_header", lambda p: hx(SpacePacketHeader.from_composite_fields(PacketId(PacketType.TC, True, 0x2AA), p, 7, 5).pack()))]
+
+
+_VERSION_SETTABLE = None
+
+
+def _version_settable() -> bool:
+    """the version bits of a header have no setter in the code as it is; a history that needs one starts with the final version"""
+    global _VERSION_SETTABLE
+    if _VERSION_SETTABLE is None:
+        h = SpacePacketHeader(PacketType.TM, 1, 1, 1, ccsds_version=2)
+        _VERSION_SETTABLE = core.tolerant_set(h, "ccsds_version", 5) and int(h.ccsds_version) == 5
+    return _VERSION_SETTABLE
+
+
+def _hdr_mutate(h: SpacePacketHeader, old, new, path):
+    """old -> new: the steps of `path` in order (see HDR_STEPS), then whatever still differs through the header's own attributes"""
+    done = set()
+
+    def header_attr(k):
+        setattr(h, _HDR_ATTR[k], _CONV[k](new[k]))
+        done.add(k)
+    for step in path:
+        keys = HDR_STEPS[step]
+        if step in ("packet_id", "packet_seq_control"):
+            # the part as a whole is replaced, where the header takes that; otherwise its fields go through the header's setters
+            if core.tolerant_set(h, step, _pid_of(new) if step == "packet_id" else _psc_of(new)):
+                done.update(keys)
+            else:
+                for k in keys:
+                    header_attr(k)
+        elif "." in step:
+            part = h.packet_id if step.startswith("pid.") else h.packet_seq_control
+            k = keys[0]
+            if core.tolerant_set(part, _PART_ATTR[k], _CONV[k](new[k])):
+                done.add(k)
+            else:
+                header_attr(k)
+        elif step == "ccsds_version":
+            if core.tolerant_set(h, "ccsds_version", int(new["version"])):
+                done.add("version")
+        else:
+            header_attr(keys[0])
+    for k in HDR_KEYS:
+        if k not in done and old[k] != new[k]:
+            header_attr(k)
+
+
+def _hdr_after_history(a) -> SpacePacketHeader:
+    h = a["hist"]
+    old = {k: h["from"][k] for k in HDR_KEYS}
+    if not _version_settable():
+        old["version"] = a["version"]
+    src = h.get("source", "ctor")
+
+    def make():
+        if src == "unpack":
+            return SpacePacketHeader.unpack(_spec_words(old) + b"\x99")
+        if src == "composite":
+            return SpacePacketHeader.from_composite_fields(_pid_of(old), _psc_of(old), old["dlen"], old["version"])
+        return _hdr(old)
+    got = {}
+    err = core.read_mutate_read(make, _hdr_views(a), lambda x: _hdr_mutate(x, old, a, h.get("path") or []), lambda: _hdr(a),
+                                f"SpacePacketHeader ({src} with {old}, then {h.get('path')})", first=h.get("read"), after=h.get("after"),
+                                out=got)
+    if err:
+        raise SelfCheckFailure(err)
+    return got["obj"]
+
+
+def _part_after_history(a, kind: str):
+    """kind "pid" / "psc": the part obtained with the old values from `source` - "ctor", "from_raw", "copy" (copy.copy of one whose
+    raw() was read), "header" (handed out by a header built with the old values) - and changed through its own attributes
+    (`path` = their order) or, via "header", through the setters of the header that handed it out"""
+    import copy
+    h = a["hist"]
+    keys = ["ptype", "shf", "apid"] if kind == "pid" else ["flags", "count"]
+    old = {k: h["from"][k] for k in keys}
+    of, views = (_pid_of, _pid_views) if kind == "pid" else (_psc_of, _psc_views)
+    src, via = h.get("source", "ctor"), h.get("via", "attr")
+    keep = {}
+
+    def make():
+        if src == "from_raw":
+            return PacketId.from_raw(int((old["ptype"] << 12) | (old["shf"] << 11) | old["apid"])) if kind == "pid" \
+                else PacketSeqCtrl.from_raw(int((old["flags"] << 14) | old["count"]))
+        if src == "copy":
+            first = of(old)
+            first.raw()
+            return copy.copy(first)
+        if src == "header":
+            full = {"version": 0, "ptype": 0, "shf": 0, "apid": 0x155, "flags": 1, "count": 0x1001, "dlen": 3}
+            full.update(old)
+            keep["hdr"] = _hdr(full)
+            return keep["hdr"].packet_id if kind == "pid" else keep["hdr"].packet_seq_control
+        return of(old)
+
+    def mutate(p):
+        order = [k for k in (h.get("path") or []) if k in keys] + [k for k in keys if k not in (h.get("path") or [])]
+        for k in order:
+            if old[k] == a[k] and k not in (h.get("path") or []):
+                continue
+            if via == "header" and "hdr" in keep:
+                setattr(keep["hdr"], _HDR_ATTR[k], _CONV[k](a[k]))
+            else:
+                _assign(p, _PART_ATTR[k], _CONV[k](a[k]))
+        if "hdr" in keep and (keep["hdr"].packet_id if kind == "pid" else keep["hdr"].packet_seq_control) is not p:
+            raise _Immutable("the header replaced the part it had handed out")
+    got = {}
+    try:
+        err = core.read_mutate_read(make, views(a), mutate, lambda: of(a),
+                                    f"{'PacketId' if kind == 'pid' else 'PacketSeqCtrl'} ({src} with {old}, changed through "
+                                    f"{'the setters of the header it belongs to' if via == 'header' else 'its attributes'})",
+                                    first=h.get("read"), after=h.get("after"), out=got)
+    except _Immutable:
+        return of(a)
+    if err:
+        raise SelfCheckFailure(err)
+    return got["obj"]
+
+
 def op_sph_new(a):
     _factory_probe(a)
-    h = _hdr(a)
+    h = _hdr_after_history(a) if a.get("hist") else _hdr(a)
     f = _fields(h)
     # composite views agree with the flat ones
     if h.packet_id.raw() != (f["ptype"] << 12 | f["shf"] << 11 | f["apid"]):
@@ -106,7 +325,7 @@ def op_sph_new(a):
 
 
 def op_sph_pack(a):
-    h = _hdr(a)
+    h = _hdr_after_history(a) if a.get("hist") else _hdr(a)
     # (packs twice, the caller modifying the first returned buffer in between)
     raw = core.pack_stable(h, "SpacePacketHeader.pack()")
     h2 = SpacePacketHeader.unpack(raw)
@@ -132,6 +351,8 @@ def op_sph_unpack(a):
 
 
 def op_pid_raw(a):
+    if a.get("hist"):
+        return {"raw": int(_part_after_history(a, "pid").raw())}
     return {"raw": int(PacketId(PacketType(a["ptype"]), bool(a["shf"]), a["apid"]).raw())}
 
 
@@ -142,6 +363,8 @@ def op_pid_from_raw(a):
 
 
 def op_psc_raw(a):
+    if a.get("hist"):
+        return {"raw": int(_part_after_history(a, "psc").raw())}
     return {"raw": int(PacketSeqCtrl(SequenceFlags(a["flags"]), a["count"]).raw())}
 
 
@@ -324,6 +547,72 @@ class C01(Prop):
                                tag="factory-independence")
                 else:
                     yield Case({"op": "sph_new", **rand_hdr(rng), "fac": fac}, "valid", tag="factory-independence")
+        # --- objects that reached the case's values the long way (key "hist", see _hdr_after_history / _part_after_history):
+        #     obtained with other values, some or all derived views read, changed through every public attribute / setter (each
+        #     field alone, all, some; in every order), all views read again in a shuffled order ---
+        yield from self._histories(rng, thorough)
+
+    def _histories(self, rng: random.Random, thorough: bool) -> Iterator[Case]:
+        tops = {"version": 7, "ptype": 1, "shf": 1, "apid": 2047, "flags": 3, "count": 16383, "dlen": 65535}
+
+        def other(k, v):
+            return rng.choice([v ^ tops[k], (v + 1) % (tops[k] + 1), (v + rng.randint(1, tops[k])) % (tops[k] + 1)])
+
+        def old_for(a, keys, what):
+            old = {k: a[k] for k in keys}
+            if what in keys:
+                old[what] = other(what, a[what])
+            elif what == "all":
+                for k in keys:
+                    old[k] = other(k, a[k])
+            else:
+                for k in rng.sample(keys, max(1, len(keys) // 2)):
+                    old[k] = other(k, a[k])
+            return old
+        # steps that assign a field: the header's attribute, the attribute of the part it hands out, the part as a whole
+        ways = {"version": ["ccsds_version"], "ptype": ["packet_type", "pid.ptype", "packet_id"],
+                "shf": ["sec_header_flag", "pid.sec_header_flag", "packet_id"], "apid": ["apid", "pid.apid", "packet_id"],
+                "flags": ["seq_flags", "psc.seq_flags", "packet_seq_control"], "count": ["seq_count", "psc.seq_count", "packet_seq_control"],
+                "dlen": ["data_len"]}
+        hdr_reads = [None, ["pack"], ["pid_raw"], ["eq"], ["psc_raw", "len"], ["hash", "generic"], ["composite", "fields"], []]
+        k = 0
+        for rep in range(12 if thorough else 2):
+            for src in ("ctor", "unpack", "composite"):
+                for rd in hdr_reads:
+                    for what in HDR_KEYS + ["all", "some"]:
+                        k += 1
+                        a = rand_hdr(rng)
+                        old = old_for(a, HDR_KEYS, what)
+                        changed = [x for x in HDR_KEYS if old[x] != a[x]]
+                        rng.shuffle(changed)
+                        path = []
+                        for x in changed:
+                            st = ways[x][k % len(ways[x])] if rep % 2 == 0 else rng.choice(ways[x])
+                            if st not in path:
+                                path.append(st)
+                        if rng.random() < 0.2:
+                            # a field that keeps its value is assigned as well
+                            path.insert(rng.randint(0, len(path)), rng.choice(["apid", "sec_header_flag", "packet_type", "seq_count", "data_len"]))
+                        after = list(HDR_VIEW_NAMES)
+                        rng.shuffle(after)
+                        hist = {"from": old, "source": src, "path": path, "read": rd, "after": after}
+                        yield Case({"op": ("sph_pack", "sph_new")[k % 2], **a, "hist": hist}, "valid", tag="read-set-read")
+        part_reads = [None, ["raw"], ["eq"], ["hash"], ["in_header", "fields"], []]
+        for rep in range(12 if thorough else 2):
+            for kind, keys, names in (("pid", ["ptype", "shf", "apid"], PID_VIEW_NAMES), ("psc", ["flags", "count"], PSC_VIEW_NAMES)):
+                for src in ("ctor", "from_raw", "copy", "header", "header"):
+                    for rd in part_reads:
+                        for what in keys + ["all", "some"]:
+                            k += 1
+                            a = {x: rng.choice([0, tops[x], rng.randint(0, tops[x]), rng.randint(0, tops[x])]) for x in keys}
+                            old = old_for(a, keys, what)
+                            path = [x for x in keys if old[x] != a[x]]
+                            rng.shuffle(path)
+                            after = list(names)
+                            rng.shuffle(after)
+                            hist = {"from": old, "source": src, "path": path, "read": rd, "after": after,
+                                    "via": "header" if src == "header" and k % 2 else "attr"}
+                            yield Case({"op": kind + "_raw", **a, "hist": hist}, "valid", tag="read-set-read")
 
 
 PROP = C01()
